@@ -1,1 +1,614 @@
-(* placeholder: to be written *)
+(** Executable model of the proxy DEX contract (property C16).
+
+    Mirrors, function by function and guard by guard:
+      locked-asset/proxy_dex/src/proxy_pair.rs            (addLiquidityProxy, removeLiquidityProxy,
+                                                           increaseProxyPairTokenEnergy)
+      locked-asset/proxy_dex/src/proxy_farm.rs            (enterFarmProxy, exitFarmProxy, claimRewardsProxy,
+                                                           increaseProxyFarmTokenEnergy,
+                                                           handle_farm_penalty_and_get_output_proxy_farming_token)
+      locked-asset/proxy_dex/src/proxy_common.rs          (require_exactly_one_locked, burn_if_base_asset)
+      locked-asset/proxy_dex/src/wrapped_lp_attributes.rs   (into_part, merge_wrapped_lp_tokens)
+      locked-asset/proxy_dex/src/wrapped_farm_attributes.rs (into_part, merge_wrapped_farm_tokens)
+      locked-asset/proxy_dex/src/wrapped_lp_token_merge.rs, wrapped_farm_token_merge.rs (merge endpoints)
+      locked-asset/proxy_dex/src/energy_update.rs         (burn_locked_tokens_and_update_energy)
+      locked-asset/proxy_dex/src/other_sc_whitelist.rs    (intermediated pairs / farms)
+      common/traits/fixed-supply-token/src/lib.rs         (rule_of_three_non_zero_result)
+      locked-asset/energy-factory/src/energy.rs           (deplete, update_after_unlock_any — the part the proxy runs itself)
+
+    What is modelled exactly: the proxy's own ledger (base asset, second pool token, LP tokens, farm
+    tokens, locked tokens and wrapped LP tokens held by the proxy), the attributes and outstanding
+    supply of every wrapped LP / wrapped farm nonce, the holders of the wrapped tokens, the base asset
+    the proxy mints and burns, the locked tokens it burns and the energy entry it writes back.
+
+    What is ENVIRONMENT (assume / guarantee, DESIGN.md §7 C16): the pair, the farms and the energy
+    factory.  Every nested call is represented by the response the proxy received ([env]); the
+    interface laws these responses must obey are evaluated where the response is consumed and
+    returned in [x_law] (the theorems quantify over runs whose responses obey the laws, the
+    correspondence run evaluates the same [x_law] on every real response).  [v_ok] says that no guard
+    of a nested contract fired (a failing nested call fails the whole transaction).
+
+    Not modelled: the legacy locked token (old factory) paths; the optional original-caller argument.
+
+    Transit convention: a helper that takes tokens out of a wrapped position removes the backing
+    from the proxy's ledger at once (the tokens are "in the proxy's hand" for the rest of the
+    transaction) and a helper that creates a position deposits the backing; at the end of every
+    operation the ledger equals the proxy's real ESDT balances.
+    No proofs in this file. *)
+From MX Require Import Base.Prelude Gen.Params.
+
+(** token codes used in payments *)
+Definition TK_BASE : Z := 0.      (* base asset (MEX) *)
+Definition TK_OTHER : Z := 1.     (* the pool's other token *)
+Definition TK_LOCKED : Z := 2.    (* locked token of the energy factory *)
+Definition TK_WLP : Z := 3.       (* wrapped LP token *)
+Definition TK_WFM : Z := 4.       (* wrapped farm token *)
+Definition OWNER : Z := 100.
+
+Definition pay := (Z * Z * Z)%type.           (* (token code, nonce, amount) *)
+Definition p_tok (p : pay) : Z := fst (fst p).
+Definition p_non (p : pay) : Z := snd (fst p).
+Definition p_amt (p : pay) : Z := snd p.
+
+(** ------------------------------------------------------------------ energy.rs (the part run by the proxy) *)
+Record penergy := mkPEn { pe_amt : Z; pe_upd : Z; pe_tot : Z }.
+
+Definition pe_add (en : penergy) (future current per_epoch : Z) : penergy :=
+  if future <=? current then en
+  else mkPEn (pe_amt en + per_epoch * (future - current)) (pe_upd en) (pe_tot en).
+
+Definition pe_subtract (en : penergy) (past current per_epoch : Z) : penergy :=
+  if current <=? past then en
+  else mkPEn (pe_amt en - per_epoch * (current - past)) (pe_upd en) (pe_tot en).
+
+Definition pe_deplete (en : penergy) (now : Z) : penergy :=
+  if pe_upd en =? now then en
+  else
+    let en1 := if 0 <? pe_tot en then pe_subtract en (pe_upd en) now (pe_tot en) else en in
+    mkPEn (pe_amt en1) now (pe_tot en1).
+
+Definition pe_update_after_unlock_any (en : penergy) (amt unlock now : Z) : result penergy :=
+  let en1 := if unlock <? now then pe_add en now unlock amt else pe_subtract en now unlock amt in
+  do t <- sub_chk (pe_tot en1) amt;
+  Ok (mkPEn (pe_amt en1) (pe_upd en1) t).
+
+(** ------------------------------------------------------------------ fixed-supply-token *)
+(** rule_of_three_non_zero_result: full * cur / total (full itself when cur = total), "Zero amount" abort *)
+Definition rule3 (total cur full : Z) : result Z :=
+  do r <- (if cur =? total then Ok full else div_chk (full * cur) total);
+  check 0 <? r else EGuard;
+  Ok r.
+
+(** ------------------------------------------------------------------ state *)
+Record wlp := mkWlp {
+  wl_T : Z;        (* lp_token_amount recorded in the attributes = supply at creation *)
+  wl_k : Z;        (* locked token nonce recorded *)
+  wl_L : Z;        (* locked token amount recorded *)
+  wl_live : Z;     (* outstanding supply that can still be redeemed *)
+  wl_dead : Z      (* supply left unburned in the proxy after its content was re-wrapped (never leaves) *)
+}.
+
+Record wfm := mkWfm {
+  wf_farm : Z;     (* which farm issued the farm token (0 = base-asset farm, 1 = LP farm) *)
+  wf_f : Z;        (* farm token nonce *)
+  wf_T : Z;        (* farm token amount recorded = supply at creation *)
+  wf_kind : Z;     (* proxy farming token: 0 = locked token, 1 = wrapped LP token *)
+  wf_pn : Z;       (* its nonce *)
+  wf_P : Z;        (* its amount *)
+  wf_sup : Z       (* outstanding supply *)
+}.
+
+Record state := mkSt {
+  s_wlp : list wlp;            (* wrapped LP nonce n is element n-1 *)
+  s_wfm : list wfm;            (* wrapped farm nonce m is element m-1 *)
+  s_hlp : list (Z * Z);        (* holders of wrapped LP tokens: key nonce*16 + account *)
+  s_hfm : list (Z * Z);        (* holders of wrapped farm tokens *)
+  s_base : Z;                  (* proxy's balance of the base asset *)
+  s_other : Z;                 (* ... of the other pool token *)
+  s_lp : Z;                    (* ... of LP tokens *)
+  s_farm : list (Z * Z);       (* ... of farm tokens: key nonce*2 + farm *)
+  s_locked : list (Z * Z);     (* ... of locked tokens per nonce *)
+  s_pwlp : list (Z * Z);       (* ... of wrapped LP tokens per nonce *)
+  s_pair_ok : bool;            (* the pair is intermediated *)
+  s_farm0_ok : bool; s_farm1_ok : bool
+}.
+
+Definition init_state : state :=
+  mkSt [] [] [] [] 0 0 0 [] [] [] true true true.
+
+Definition hkey (n u : Z) : Z := n * 16 + u.
+Definition fkey (f farm : Z) : Z := f * 2 + farm.
+
+Definition getn {A} (l : list A) (n : Z) : option A :=
+  if n <=? 0 then None else nth_error l (Z.to_nat (n - 1)).
+
+Fixpoint setnth {A} (l : list A) (i : nat) (x : A) : list A :=
+  match l, i with
+  | [], _ => []
+  | _ :: t, O => x :: t
+  | h :: t, S j => h :: setnth t j x
+  end.
+
+Definition setn {A} (l : list A) (n : Z) (x : A) : list A := setnth l (Z.to_nat (n - 1)) x.
+
+Definition next_nonce {A} (l : list A) : Z := Z.of_nat (length l) + 1.
+
+Definition bal_sub (l : list (Z * Z)) (k a : Z) : result (list (Z * Z)) :=
+  do v <- sub_chk (aget l k) a; Ok (aset l k v).
+Definition bal_add (l : list (Z * Z)) (k a : Z) : list (Z * Z) := aset l k (aget l k + a).
+
+(** ------------------------------------------------------------------ environment *)
+Record env := mkEnv {
+  v_now : Z;               (* block epoch *)
+  v_ok : bool;             (* no guard of a nested contract fires *)
+  v_pair : Z * Z * Z;      (* addLiquidity: (lp, first used, second used) in payment order;
+                              removeLiquidity: (0, base asset received, other token received) *)
+  v_farm : Z * Z;          (* enterFarm / claimRewards: farm token (nonce, amount); exitFarm: (0, farming tokens returned) *)
+  v_fmerge : Z * Z;        (* mergeFarmTokens: farm token (nonce, amount) *)
+  v_rew : Z * Z;           (* reward payment forwarded to the caller: locked token (nonce, amount) *)
+  v_fact : Z * Z;          (* mergeTokens / extendLockPeriod of the factory: locked token (nonce, amount) *)
+  v_energy : penergy;      (* the caller's energy entry as the proxy reads it *)
+  v_unlock : Z             (* unlock epoch of the locked nonce the proxy burns *)
+}.
+
+(** what an operation does besides changing the state *)
+Record eff := mkEff {
+  x_outs : list pay;           (* payments returned by the endpoint *)
+  x_mint : Z;                  (* base asset minted by the proxy *)
+  x_burn : Z;                  (* base asset burned by the proxy *)
+  x_lburn : Z * Z;             (* locked tokens burned by the proxy (nonce, amount) *)
+  x_energy : option penergy;   (* energy entry written to the factory for the caller *)
+  x_law : bool                 (* the nested responses obey the interface laws *)
+}.
+
+Inductive op :=
+| AddLiq (u pairid : Z) (p1 p2 : pay) (extra : list pay) (e : env)
+| RemoveLiq (u pairid : Z) (p : pay) (e : env)
+| EnterFarm (u farm : Z) (p : pay) (extra : list pay) (e : env)
+| ExitFarm (u farm : Z) (p : pay) (e : env)
+| ClaimRew (u farm : Z) (p : pay) (e : env)
+| MergeWlp (u : Z) (ps : list pay) (e : env)
+| MergeWfm (u farm : Z) (ps : list pay) (e : env)
+| IncLp (u : Z) (p : pay) (e : env)
+| IncFm (u : Z) (p : pay) (e : env)
+| SetPair (u : Z) (b : bool)
+| SetFarm (u farm : Z) (b : bool)
+| XferWlp (src dst n a : Z)
+| XferWfm (src dst n a : Z).
+
+(** ------------------------------------------------------------------ record updates *)
+Definition upd_wlp (s : state) (v : list wlp) : state :=
+  mkSt v (s_wfm s) (s_hlp s) (s_hfm s) (s_base s) (s_other s) (s_lp s) (s_farm s) (s_locked s) (s_pwlp s)
+       (s_pair_ok s) (s_farm0_ok s) (s_farm1_ok s).
+Definition upd_wfm (s : state) (v : list wfm) : state :=
+  mkSt (s_wlp s) v (s_hlp s) (s_hfm s) (s_base s) (s_other s) (s_lp s) (s_farm s) (s_locked s) (s_pwlp s)
+       (s_pair_ok s) (s_farm0_ok s) (s_farm1_ok s).
+Definition upd_hlp (s : state) (v : list (Z * Z)) : state :=
+  mkSt (s_wlp s) (s_wfm s) v (s_hfm s) (s_base s) (s_other s) (s_lp s) (s_farm s) (s_locked s) (s_pwlp s)
+       (s_pair_ok s) (s_farm0_ok s) (s_farm1_ok s).
+Definition upd_hfm (s : state) (v : list (Z * Z)) : state :=
+  mkSt (s_wlp s) (s_wfm s) (s_hlp s) v (s_base s) (s_other s) (s_lp s) (s_farm s) (s_locked s) (s_pwlp s)
+       (s_pair_ok s) (s_farm0_ok s) (s_farm1_ok s).
+Definition upd_lp (s : state) (v : Z) : state :=
+  mkSt (s_wlp s) (s_wfm s) (s_hlp s) (s_hfm s) (s_base s) (s_other s) v (s_farm s) (s_locked s) (s_pwlp s)
+       (s_pair_ok s) (s_farm0_ok s) (s_farm1_ok s).
+Definition upd_farm (s : state) (v : list (Z * Z)) : state :=
+  mkSt (s_wlp s) (s_wfm s) (s_hlp s) (s_hfm s) (s_base s) (s_other s) (s_lp s) v (s_locked s) (s_pwlp s)
+       (s_pair_ok s) (s_farm0_ok s) (s_farm1_ok s).
+Definition upd_locked (s : state) (v : list (Z * Z)) : state :=
+  mkSt (s_wlp s) (s_wfm s) (s_hlp s) (s_hfm s) (s_base s) (s_other s) (s_lp s) (s_farm s) v (s_pwlp s)
+       (s_pair_ok s) (s_farm0_ok s) (s_farm1_ok s).
+Definition upd_pwlp (s : state) (v : list (Z * Z)) : state :=
+  mkSt (s_wlp s) (s_wfm s) (s_hlp s) (s_hfm s) (s_base s) (s_other s) (s_lp s) (s_farm s) (s_locked s) v
+       (s_pair_ok s) (s_farm0_ok s) (s_farm1_ok s).
+Definition upd_flags (s : state) (p f0 f1 : bool) : state :=
+  mkSt (s_wlp s) (s_wfm s) (s_hlp s) (s_hfm s) (s_base s) (s_other s) (s_lp s) (s_farm s) (s_locked s) (s_pwlp s)
+       p f0 f1.
+
+(** ------------------------------------------------------------------ primitive ledger moves *)
+(** locked tokens leave / enter the proxy's balance *)
+Definition locked_out (s : state) (k a : Z) : result state :=
+  do l <- bal_sub (s_locked s) k a; Ok (upd_locked s l).
+Definition locked_in (s : state) (k a : Z) : state := upd_locked s (bal_add (s_locked s) k a).
+
+(** WrappedLpTokenAttributes::into_part: the locked tokens that go with [a] wrapped LP tokens *)
+Definition part_wlp (w : wlp) (a : Z) : result Z := rule3 (wl_T w) a (wl_L w).
+(** WrappedFarmTokenAttributes::into_part: the proxy farming tokens that go with [a] wrapped farm tokens *)
+Definition part_wfm (w : wfm) (a : Z) : result Z := rule3 (wf_T w) a (wf_P w).
+
+(** [a] wrapped LP tokens of nonce [n] are redeemed out of the live supply: their locked tokens are
+    taken into the proxy's hand.  Returns (locked nonce, locked amount). *)
+Definition release_wlp (s : state) (n a : Z) : result (state * (Z * Z)) :=
+  match getn (s_wlp s) n with
+  | None => Err EGuard
+  | Some w =>
+      check 0 <? a else EGuard;
+      do lp <- part_wlp w a;
+      do live <- sub_chk (wl_live w) a;
+      let s1 := upd_wlp s (setn (s_wlp s) n (mkWlp (wl_T w) (wl_k w) (wl_L w) live (wl_dead w))) in
+      do s2 <- locked_out s1 (wl_k w) lp;
+      Ok (s2, (wl_k w, lp))
+  end.
+
+(** a user pays [a] wrapped LP tokens of nonce [n]; they are burned (now or later in the transaction);
+    the LP tokens and the locked tokens behind them are taken into the proxy's hand *)
+Definition take_wlp_user (s : state) (u n a : Z) : result (state * (Z * Z)) :=
+  do h <- bal_sub (s_hlp s) (hkey n u) a;
+  do lp <- sub_chk (s_lp s) a;
+  release_wlp (upd_lp (upd_hlp s h) lp) n a.
+
+(** wrapped LP tokens the proxy holds in its hand stay in its balance unburned while their content is
+    re-wrapped: they leave the live supply for good *)
+Definition kill_wlp (s : state) (n a : Z) : result (state * (Z * Z)) :=
+  do r <- release_wlp s n a;
+  let '(s1, kl) := r in
+  match getn (s_wlp s1) n with
+  | None => Err EGuard
+  | Some w =>
+      let s2 := upd_wlp s1 (setn (s_wlp s1) n (mkWlp (wl_T w) (wl_k w) (wl_L w) (wl_live w) (wl_dead w + a))) in
+      Ok (upd_pwlp s2 (bal_add (s_pwlp s2) n a), kl)
+  end.
+
+(** nft_create of a wrapped LP token with attributes (T, k, L); the locked tokens are deposited.
+    Returns the new nonce. *)
+Definition mint_wlp (s : state) (T k L : Z) : state * Z :=
+  let n := next_nonce (s_wlp s) in
+  (locked_in (upd_wlp s (s_wlp s ++ [mkWlp T k L T 0])) k L, n).
+
+(** ... sent to a user: the LP tokens are deposited as well *)
+Definition mint_wlp_user (s : state) (u T k L : Z) : state * Z :=
+  let '(s1, n) := mint_wlp s T k L in
+  (upd_lp (upd_hlp s1 (bal_add (s_hlp s1) (hkey n u) T)) (s_lp s1 + T), n).
+
+(** a user pays [a] wrapped farm tokens of nonce [m]: the farm tokens and the proxy farming tokens
+    behind them are taken into the proxy's hand.  Returns the attributes and the proxy farming part. *)
+Definition take_wfm (s : state) (u m a : Z) : result (state * (wfm * Z)) :=
+  match getn (s_wfm s) m with
+  | None => Err EGuard
+  | Some w =>
+      check 0 <? a else EGuard;
+      do h <- bal_sub (s_hfm s) (hkey m u) a;
+      do pp <- part_wfm w a;
+      do sup <- sub_chk (wf_sup w) a;
+      do fb <- bal_sub (s_farm s) (fkey (wf_f w) (wf_farm w)) a;
+      let s1 := upd_farm (upd_hfm (upd_wfm s (setn (s_wfm s) m
+                  (mkWfm (wf_farm w) (wf_f w) (wf_T w) (wf_kind w) (wf_pn w) (wf_P w) sup))) h) fb in
+      do s2 <- (if wf_kind w =? 0 then locked_out s1 (wf_pn w) pp
+                else do l <- bal_sub (s_pwlp s1) (wf_pn w) pp; Ok (upd_pwlp s1 l));
+      Ok (s2, (w, pp))
+  end.
+
+(** nft_create of a wrapped farm token sent to [u]; farm tokens and proxy farming tokens are deposited *)
+Definition mint_wfm (s : state) (u farm f T kind pn P : Z) : state * Z :=
+  let m := next_nonce (s_wfm s) in
+  let s1 := upd_wfm s (s_wfm s ++ [mkWfm farm f T kind pn P T]) in
+  let s2 := upd_farm (upd_hfm s1 (bal_add (s_hfm s1) (hkey m u) T)) (bal_add (s_farm s1) (fkey f farm) T) in
+  (if kind =? 0 then locked_in s2 pn P else upd_pwlp s2 (bal_add (s_pwlp s2) pn P), m).
+
+(** burn_locked_tokens_and_update_energy (the tokens are in the proxy's hand) *)
+Definition burn_energy (e : env) (amt : Z) : result (option penergy) :=
+  if amt =? 0 then Ok None
+  else do en <- pe_update_after_unlock_any (pe_deplete (v_energy e) (v_now e)) amt (v_unlock e) (v_now e);
+       Ok (Some en).
+
+Definition farm_ok (s : state) (farm : Z) : bool :=
+  if farm =? 0 then s_farm0_ok s else if farm =? 1 then s_farm1_ok s else false.
+
+Fixpoint sum_amt (ps : list pay) : Z :=
+  match ps with [] => 0 | p :: t => p_amt p + sum_amt t end.
+
+(** ------------------------------------------------------------------ merging *)
+(** burn the wrapped LP payments of a merge one by one; accumulates (LP total, locked parts total) *)
+Fixpoint take_wlp_list (s : state) (u : Z) (ps : list pay) : result (state * (Z * Z)) :=
+  match ps with
+  | [] => Ok (s, (0, 0))
+  | p :: t =>
+      check p_tok p =? TK_WLP else EGuard;
+      do r <- take_wlp_user s u (p_non p) (p_amt p);
+      let '(s1, (_, lp)) := r in
+      do r2 <- take_wlp_list s1 u t;
+      let '(s2, (ta, tl)) := r2 in
+      Ok (s2, (p_amt p + ta, lp + tl))
+  end.
+
+(** one element of a wrapped-farm merge: farm, farm amount, kind, proxy farming nonce and amount *)
+Definition item := (Z * Z * Z * Z * Z)%type.
+Definition mk_item (farm a kind pn pp : Z) : item := (farm, a, kind, pn, pp).
+
+Fixpoint take_wfm_list (s : state) (u : Z) (ps : list pay) : result (state * list item) :=
+  match ps with
+  | [] => Ok (s, [])
+  | p :: t =>
+      check p_tok p =? TK_WFM else EGuard;
+      do r <- take_wfm s u (p_non p) (p_amt p);
+      let '(s1, (w, pp)) := r in
+      do r2 <- take_wfm_list s1 u t;
+      let '(s2, its) := r2 in
+      Ok (s2, mk_item (wf_farm w) (p_amt p) (wf_kind w) (wf_pn w) pp :: its)
+  end.
+
+(** merge_wrapped_lp_tokens over wrapped LP tokens the proxy holds (not burned: they die);
+    accumulates (wrapped LP total, locked parts total) *)
+Fixpoint kill_items (s : state) (its : list item) : result (state * (Z * Z)) :=
+  match its with
+  | [] => Ok (s, (0, 0))
+  | (_, _, _, pn, pp) :: t =>
+      do r <- kill_wlp s pn pp;
+      let '(s1, (_, lq)) := r in
+      do r2 <- kill_items s1 t;
+      let '(s2, (ta, tl)) := r2 in
+      Ok (s2, (pp + ta, lq + tl))
+  end.
+
+Fixpoint items_same (farm kind : Z) (its : list item) : bool :=
+  match its with
+  | [] => true
+  | (fa, _, ki, _, _) :: t => (fa =? farm) && (ki =? kind) && items_same farm kind t
+  end.
+
+Fixpoint items_farm_total (its : list item) : Z :=
+  match its with [] => 0 | (_, a, _, _, _) :: t => a + items_farm_total t end.
+Fixpoint items_pp_total (its : list item) : Z :=
+  match its with [] => 0 | (_, _, _, _, pp) :: t => pp + items_pp_total t end.
+
+(** merge_wrapped_farm_tokens: all items are in the proxy's hand.  Returns the new wrapped farm nonce,
+    its amount and the law flag. *)
+Definition merge_items (s : state) (u farm : Z) (its : list item) (e : env)
+  : result (state * (Z * Z * bool)) :=
+  match its with
+  | [] => Err EGuard
+  | (fa, _, kind, _, _) :: _ =>
+      check items_same fa kind its else EGuard;
+      check fa =? farm else EExt;                     (* the farm only takes its own farm token *)
+      check v_ok e else EExt;
+      let '(kf, lf) := v_fact e in
+      let '(f', F') := v_fmerge e in
+      if kind =? 0 then
+        let '(s1, m) := mint_wfm s u farm f' F' 0 kf lf in
+        Ok (s1, (m, F', (lf =? items_pp_total its) && (F' =? items_farm_total its)))
+      else
+        do r <- kill_items s its;
+        let '(s1, (tw, tl)) := r in
+        let '(s2, n) := mint_wlp s1 tw kf lf in
+        let '(s3, m) := mint_wfm s2 u farm f' F' 1 n tw in
+        Ok (s3, (m, F', (lf =? tl) && (F' =? items_farm_total its)))
+  end.
+
+(** ------------------------------------------------------------------ endpoints *)
+Definition no_eff (outs : list pay) (law : bool) : eff := mkEff outs 0 0 (0, 0) None law.
+
+Definition ep_add_liq (s : state) (u pairid : Z) (p1 p2 : pay) (extra : list pay) (e : env)
+  : result (state * eff) :=
+  check (pairid =? 0) && s_pair_ok s else EGuard;
+  let l1 := p_tok p1 =? TK_LOCKED in
+  let l2 := p_tok p2 =? TK_LOCKED in
+  check xorb l1 l2 else EGuard;                       (* require_exactly_one_locked *)
+  check (0 <? p_amt p1) && (0 <? p_amt p2) else EGuard;
+  let pl := if l1 then p1 else p2 in
+  let minted := p_amt pl in
+  check v_ok e else EExt;
+  let '(lp, used1, used2) := v_pair e in
+  do left1 <- sub_chk (p_amt p1) used1;
+  do left2 <- sub_chk (p_amt p2) used2;
+  let locked_used := if l1 then used1 else used2 in
+  let lleft := if l1 then left1 else left2 in          (* base asset handed back by the pair, burned *)
+  let oleft := if l1 then left2 else left1 in
+  let law := (0 <? lp) && (0 <=? locked_used) in
+  match extra with
+  | [] =>
+      let '(s1, n) := mint_wlp_user s u lp (p_non pl) locked_used in
+      Ok (s1, mkEff [(TK_WLP, n, lp); (TK_LOCKED, p_non pl, lleft); (TK_OTHER, 0, oleft)]
+                    minted lleft (0, 0) None law)
+  | _ =>
+      do r <- take_wlp_list s u extra;
+      let '(s1, (ta, tl)) := r in
+      do _ <- rule3 lp lp locked_used;                 (* into_part of the virtual position *)
+      let '(kf, lf) := v_fact e in
+      let '(s2, n) := mint_wlp_user s1 u (lp + ta) kf lf in
+      Ok (s2, mkEff [(TK_WLP, n, lp + ta); (TK_LOCKED, p_non pl, lleft); (TK_OTHER, 0, oleft)]
+                    minted lleft (0, 0) None (law && (lf =? locked_used + tl)))
+  end.
+
+Definition ep_remove_liq (s : state) (u pairid : Z) (p : pay) (e : env) : result (state * eff) :=
+  check (pairid =? 0) && s_pair_ok s else EGuard;
+  check p_tok p =? TK_WLP else EGuard;
+  do r <- take_wlp_user s u (p_non p) (p_amt p);
+  let '(s1, (k, lp)) := r in
+  check v_ok e else EExt;
+  let '(_, rb, ro) := v_pair e in
+  if lp <? rb then
+    Ok (s1, mkEff [(TK_BASE, 0, rb - lp); (TK_LOCKED, k, lp); (TK_OTHER, 0, ro)] 0 lp (0, 0) None true)
+  else
+    let extra := lp - rb in
+    do en <- burn_energy e extra;
+    Ok (s1, mkEff [(TK_LOCKED, k, rb); (TK_OTHER, 0, ro)] 0 rb (k, extra) en (0 <=? rb)).
+
+Definition ep_enter_farm (s : state) (u farm : Z) (p : pay) (extra : list pay) (e : env)
+  : result (state * eff) :=
+  check farm_ok s farm else EGuard;
+  check 0 <? p_amt p else EGuard;
+  let a := p_amt p in
+  do r0 <- (if p_tok p =? TK_LOCKED then
+              check farm =? 0 else EExt;               (* the base-asset farm takes the minted base asset *)
+              Ok (s, 0, a)
+            else if p_tok p =? TK_WLP then
+              match getn (s_wlp s) (p_non p) with
+              | None => Err EGuard
+              | Some w =>
+                  do h <- bal_sub (s_hlp s) (hkey (p_non p) u) a;
+                  do _ <- part_wlp w a;
+                  do lp <- sub_chk (s_lp s) a;          (* the LP tokens go to the farm *)
+                  check farm =? 1 else EExt;
+                  Ok (upd_lp (upd_hlp s h) lp, 1, 0)
+              end
+            else Err EGuard);
+  let '(s1, kind, minted) := r0 in
+  check v_ok e else EExt;
+  let '(f, F) := v_farm e in
+  let '(rk, ra) := v_rew e in
+  match extra with
+  | [] =>
+      let '(s2, m) := mint_wfm s1 u farm f F kind (p_non p) a in
+      Ok (s2, mkEff [(TK_WFM, m, F); (TK_LOCKED, rk, ra)] minted 0 (0, 0) None (F =? a))
+  | _ =>
+      do r <- take_wfm_list s1 u extra;
+      let '(s2, its) := r in
+      do _ <- rule3 F F a;                             (* into_part of the virtual position *)
+      (* the virtual position's proxy farming tokens are in the proxy's hand; a wrapped LP payment
+         is in its balance already, so it is put back before the common merge takes it *)
+      let s3 := if kind =? 0 then s2 else upd_pwlp s2 (bal_add (s_pwlp s2) (p_non p) a) in
+      do s4 <- (if kind =? 0 then Ok s3
+                else do l <- bal_sub (s_pwlp s3) (p_non p) a; Ok (upd_pwlp s3 l));
+      do r2 <- merge_items s4 u farm (mk_item farm F kind (p_non p) a :: its) e;
+      let '(s5, (m, amt, law)) := r2 in
+      Ok (s5, mkEff [(TK_WFM, m, amt); (TK_LOCKED, rk, ra)] minted 0 (0, 0) None ((F =? a) && law))
+  end.
+
+Definition ep_exit_farm (s : state) (u farm : Z) (p : pay) (e : env) : result (state * eff) :=
+  check farm_ok s farm else EGuard;
+  check p_tok p =? TK_WFM else EGuard;
+  let a := p_amt p in
+  do r <- take_wfm s u (p_non p) a;
+  let '(s1, (w, pp)) := r in
+  check wf_farm w =? farm else EExt;
+  check v_ok e else EExt;
+  let F := snd (v_farm e) in
+  let '(rk, ra) := v_rew e in
+  let bburn := if farm =? 0 then F else 0 in           (* burn_if_base_asset *)
+  check F <=? a else EGuard;
+  if F =? a then
+    if wf_kind w =? 0 then
+      Ok (s1, mkEff [(TK_LOCKED, wf_pn w, pp); (TK_LOCKED, rk, ra)] 0 bburn (0, 0) None (0 <=? F))
+    else
+      let s2 := upd_lp (upd_hlp s1 (bal_add (s_hlp s1) (hkey (wf_pn w) u) pp)) (s_lp s1 + F) in
+      Ok (s2, mkEff [(TK_WLP, wf_pn w, pp); (TK_LOCKED, rk, ra)] 0 bburn (0, 0) None (0 <=? F))
+  else
+    let pen := a - F in
+    do rem <- sub_chk pp pen;
+    if wf_kind w =? 0 then
+      do en <- burn_energy e pen;
+      Ok (s1, mkEff [(TK_LOCKED, wf_pn w, rem); (TK_LOCKED, rk, ra)] 0 bburn (wf_pn w, pen) en (0 <=? F))
+    else
+      match getn (s_wlp s1) (wf_pn w) with
+      | None => Err EGuard
+      | Some wl =>
+          do lnew <- part_wlp wl rem;
+          (* the old wrapped LP tokens stay in the proxy unburned *)
+          do r2 <- kill_wlp (upd_pwlp s1 (s_pwlp s1)) (wf_pn w) pp;
+          let '(s2, (k, lold)) := r2 in
+          do extra <- sub_chk lold lnew;
+          do en <- burn_energy e extra;
+          let s3 := upd_lp s2 (s_lp s2 + F) in
+          let '(s4, n) := mint_wlp s3 rem k lnew in
+          let s5 := upd_lp (upd_hlp s4 (bal_add (s_hlp s4) (hkey n u) rem)) (s_lp s4) in
+          Ok (s5, mkEff [(TK_WLP, n, rem); (TK_LOCKED, rk, ra)] 0 bburn (k, extra) en (0 <=? F))
+      end.
+
+Definition ep_claim (s : state) (u farm : Z) (p : pay) (e : env) : result (state * eff) :=
+  check farm_ok s farm else EGuard;
+  check p_tok p =? TK_WFM else EGuard;
+  do r <- take_wfm s u (p_non p) (p_amt p);
+  let '(s1, (w, pp)) := r in
+  check wf_farm w =? farm else EExt;
+  check v_ok e else EExt;
+  let '(f, F) := v_farm e in
+  let '(rk, ra) := v_rew e in
+  let '(s2, m) := mint_wfm s1 u farm f F (wf_kind w) (wf_pn w) pp in
+  Ok (s2, no_eff [(TK_WFM, m, F); (TK_LOCKED, rk, ra)] (F =? p_amt p)).
+
+Definition ep_merge_wlp (s : state) (u : Z) (ps : list pay) (e : env) : result (state * eff) :=
+  check PROXY_MIN_MERGE_PAYMENTS <=? Z.of_nat (length ps) else EGuard;
+  do r <- take_wlp_list s u ps;
+  let '(s1, (ta, tl)) := r in
+  check v_ok e else EExt;
+  let '(kf, lf) := v_fact e in
+  let '(s2, n) := mint_wlp_user s1 u ta kf lf in
+  Ok (s2, no_eff [(TK_WLP, n, ta)] (lf =? tl)).
+
+Definition ep_merge_wfm (s : state) (u farm : Z) (ps : list pay) (e : env) : result (state * eff) :=
+  check farm_ok s farm else EGuard;
+  check PROXY_MIN_MERGE_PAYMENTS <=? Z.of_nat (length ps) else EGuard;
+  do r <- take_wfm_list s u ps;
+  let '(s1, its) := r in
+  do r2 <- merge_items s1 u farm its e;
+  let '(s2, (m, amt, law)) := r2 in
+  Ok (s2, no_eff [(TK_WFM, m, amt)] law).
+
+Definition ep_inc_lp (s : state) (u : Z) (p : pay) (e : env) : result (state * eff) :=
+  check p_tok p =? TK_WLP else EGuard;
+  do r <- take_wlp_user s u (p_non p) (p_amt p);
+  let '(s1, (k, lp)) := r in
+  check v_ok e else EExt;
+  let '(kf, lf) := v_fact e in
+  let '(s2, n) := mint_wlp_user s1 u (p_amt p) kf lf in
+  Ok (s2, no_eff [(TK_WLP, n, p_amt p)] (lf =? lp)).
+
+Definition ep_inc_fm (s : state) (u : Z) (p : pay) (e : env) : result (state * eff) :=
+  check p_tok p =? TK_WFM else EGuard;
+  let a := p_amt p in
+  do r <- take_wfm s u (p_non p) a;
+  let '(s1, (w, pp)) := r in
+  let '(kf, lf) := v_fact e in
+  if wf_kind w =? 0 then
+    check v_ok e else EExt;
+    let '(s2, m) := mint_wfm s1 u (wf_farm w) (wf_f w) a 0 kf lf in
+    Ok (s2, no_eff [(TK_WFM, m, a)] (lf =? pp))
+  else
+    (* the wrapped LP tokens in the proxy's hand are burned, a new wrapped LP token replaces them *)
+    do r2 <- release_wlp s1 (wf_pn w) pp;
+    let '(s2, (k, lq)) := r2 in
+    check v_ok e else EExt;
+    let '(s3, n) := mint_wlp s2 pp kf lf in
+    let '(s4, m) := mint_wfm s3 u (wf_farm w) (wf_f w) a 1 n pp in
+    Ok (s4, no_eff [(TK_WFM, m, a)] (lf =? lq)).
+
+Definition ep_xfer_wlp (s : state) (src dst n a : Z) : result (state * eff) :=
+  check 0 <? a else EGuard;
+  do h <- bal_sub (s_hlp s) (hkey n src) a;
+  Ok (upd_hlp s (bal_add h (hkey n dst) a), no_eff [] true).
+
+Definition ep_xfer_wfm (s : state) (src dst n a : Z) : result (state * eff) :=
+  check 0 <? a else EGuard;
+  do h <- bal_sub (s_hfm s) (hkey n src) a;
+  Ok (upd_hfm s (bal_add h (hkey n dst) a), no_eff [] true).
+
+Definition step (s : state) (o : op) : result (state * eff) :=
+  match o with
+  | AddLiq u pid p1 p2 extra e => ep_add_liq s u pid p1 p2 extra e
+  | RemoveLiq u pid p e => ep_remove_liq s u pid p e
+  | EnterFarm u farm p extra e => ep_enter_farm s u farm p extra e
+  | ExitFarm u farm p e => ep_exit_farm s u farm p e
+  | ClaimRew u farm p e => ep_claim s u farm p e
+  | MergeWlp u ps e => ep_merge_wlp s u ps e
+  | MergeWfm u farm ps e => ep_merge_wfm s u farm ps e
+  | IncLp u p e => ep_inc_lp s u p e
+  | IncFm u p e => ep_inc_fm s u p e
+  | SetPair u b =>
+      check u =? OWNER else EPerm;
+      check b || s_pair_ok s else EGuard;              (* removeIntermediatedPair requires membership *)
+      Ok (upd_flags s b (s_farm0_ok s) (s_farm1_ok s), no_eff [] true)
+  | SetFarm u farm b =>
+      check u =? OWNER else EPerm;
+      check (farm =? 0) || (farm =? 1) else EGuard;
+      check b || farm_ok s farm else EGuard;
+      Ok (if farm =? 0 then upd_flags s (s_pair_ok s) b (s_farm1_ok s)
+          else upd_flags s (s_pair_ok s) (s_farm0_ok s) b, no_eff [] true)
+  | XferWlp src dst n a => ep_xfer_wlp s src dst n a
+  | XferWfm src dst n a => ep_xfer_wfm s src dst n a
+  end.
+
+(** a failed transaction leaves the state unchanged *)
+Definition step_total (s : state) (o : op) : state :=
+  match step s o with Ok (s', _) => s' | Err _ => s end.
+
+Definition run (s : state) (ops : list op) : state := fold_left step_total ops s.
+
+(** a run all of whose nested responses obey the interface laws *)
+Fixpoint lawful (s : state) (ops : list op) : bool :=
+  match ops with
+  | [] => true
+  | o :: t =>
+      match step s o with
+      | Ok (s', x) => x_law x && lawful s' t
+      | Err _ => lawful s t
+      end
+  end.
